@@ -77,7 +77,7 @@ def plan(pid, tier):
         jobs = [arena_job("prefix2-x-initialisers", "init", 11, 3, 1, 45, tier)] if q else [arena_job("prefix3-x-initialisers", "init", 11, 4, 1, 600, tier), arena_job("prefix2-dev2", "init", 11, 3, 2, 300, tier)]
         return {"level": "model_checking", "jobs": jobs, "owns_crashes": False, "rule": RULE_ARENA, "assumptions": ARENA_ASSUME, "bounds": {"depth": 3 if q else 4, "deviations": 1 if q else 2}}
     if pid == "C12":
-        jobs = [arena_job("allocator-api", "allocapi", 12, 3, 1, 45, tier), arena_job("allocator-api-sweep", "apisweep", 12, 5, 0, 40, tier)] if q else [arena_job("allocator-api-d4", "allocapi", 12, 4, 1, 700, tier, min_aligns="1,8,16"), arena_job("allocator-api-d3-dev2", "allocapi", 12, 3, 2, 300, tier), arena_job("allocator-api-sweep-dev1", "apisweep", 12, 5, 1, 600, tier)]
+        jobs = [arena_job("allocator-api", "allocapi", 12, 3, 1, 45, tier), arena_job("allocator-api-sweep", "apisweep", 12, 5, 0, 40, tier), coll_job("api2-vec-vs-global-allocator", "vec", 12, 3, 4, tier, 40, container="api2")] if q else [coll_job("api2-vec-vs-global-allocator", "vec", 12, 4, 5, tier, 600, container="api2"), arena_job("allocator-api-d4", "allocapi", 12, 4, 1, 700, tier, min_aligns="1,8,16"), arena_job("allocator-api-d3-dev2", "allocapi", 12, 3, 2, 300, tier), arena_job("allocator-api-sweep-dev1", "apisweep", 12, 5, 1, 600, tier)]
         return {"level": "model_checking", "jobs": jobs, "owns_crashes": True, "rule": RULE_ARENA, "assumptions": ARENA_ASSUME, "bounds": {"depth": 3 if q else 4, "deviations": 1 if q else 2}}
     if pid in ("C13", "C14", "C15", "C16", "C17"):
         return coll_plan(pid, tier)
@@ -113,9 +113,13 @@ def plan(pid, tier):
     return None
 
 
-def coll_job(name, cmd, prop, depth, max_len, tier, budget, mode="diff", build="release"):
+def coll_job(name, cmd, prop, depth, max_len, tier, budget, mode="diff", build="release", container=None):
     args = [cmd, "--prop", str(prop), "--depth", str(depth), "--max-len", str(max_len), "--tier", tier, "--budget-s", str(budget), "--mode", mode]
-    return {"name": name, "bin": "bumpmc", "profile_build": build, "args": args, "replay_args": ["replay-" + cmd, "--depth", str(depth), "--max-len", str(max_len), "--tier", tier, "--mode", mode]}
+    rargs = ["replay-" + cmd, "--depth", str(depth), "--max-len", str(max_len), "--tier", tier, "--mode", mode]
+    if container:
+        args += ["--container", container]
+        rargs += ["--container", container]
+    return {"name": name, "bin": "bumpmc", "profile_build": build, "args": args, "replay_args": rargs}
 
 
 COLL_ASSUME = [
